@@ -1,5 +1,5 @@
 package main
 
-func genBasexStream(ctx *Ctx, emit func(Case)) {}
-func genFields(ctx *Ctx, emit func(Case))      {}
-func goExecMore(t []string) (string, bool)     { return "", false }
+func genBasexStream(ctx *Ctx, emit func(Case))   {}
+func genFields(ctx *Ctx, emit func(Case))        {}
+func goExecMore2(t []string) (string, bool)      { return "", false }
